@@ -77,6 +77,70 @@ def gen_c12src():
     mprec = E.find1(r'double\s+LP::getPrecision\s*\(\s*\)\s*\{\s*return\s+([0-9.eE+-]+)\s*;', lpw, 'LP::getPrecision')
     lp_prec = E.lean_rat(E.lit_to_rat(mprec.group(1)))
 
+    # ---- WitnessLP (round 3): every statement the model AITB.Model.WitnessLP transcribes
+    m = re.search(r'static double witnessScale\(const Hyperplane & v\) \{(.*?)\n    \}', src, re.S)
+    if not m:
+        raise E.ExtractError('witnessScale: definition not found')
+    ws = flat(m.group(1))
+    E.find1(r'const double m = v\.size\(\) \? v\.cwiseAbs\(\)\.maxCoeff\(\) : 0\.0;', ws, 'witnessScale largest magnitude')
+    E.find1(r'if \(!\(m > 0\.0\) \|\| !std::isfinite\(m\)\) return 1\.0;', ws, 'witnessScale zero guard')
+    E.find1(r'const int e = std::ilogb\(m\);', ws, 'witnessScale exponent')
+    mb = E.find1(r'return std::abs\(e\) > (\d+) \? std::ldexp\(1\.0, -e\) : 1\.0;', ws, 'witnessScale power of two')
+    exp_bound = int(mb.group(1))
+
+    def method(name, ret):
+        mm = re.search(ret + r'\s+WitnessLP::' + name + r'\s*\([^)]*\)\s*\{', src)
+        if not mm:
+            raise E.ExtractError('WitnessLP::' + name + ' not found')
+        i = src.index('{', mm.start()); depth = 0; j = i
+        while j < len(src):
+            if src[j] == '{': depth += 1
+            elif src[j] == '}':
+                depth -= 1
+                if depth == 0: return flat(src[i:j + 1])
+            j += 1
+        raise E.ExtractError('unbalanced body of WitnessLP::' + name)
+    add = method('addOptimalRow', 'void')
+    E.find1(r'^\{ if \(scale_ == 0\.0\) scale_ = witnessScale\(v\); for \( size_t i = 0; i < S; \+\+i \) lp_\.row\[i\] = v\[i\] \* scale_; '
+            r'lp_\.row\[S\+1\] = \+1\.0; lp_\.pushRow\(LP::Constraint::LessEqual, 0\.0\); lp_\.row\[S\+1\] = 0\.0; \}$', add, 'WitnessLP::addOptimalRow body')
+    fw = method('findWitness', r'std::optional<Point>')
+    E.find1(r'^\{ const double scale = scale_ != 0\.0 \? scale_ : witnessScale\(v\); for \( size_t i = 0; i < S; \+\+i \) lp_\.row\[i\] = v\[i\] \* scale; '
+            r'lp_\.pushRow\(LP::Constraint::Equal, 0\.0\); double deltaValue; auto solution = lp_\.solve\(S, &deltaValue\); lp_\.popRow\(\); '
+            r'if \(deltaValue <= 0\) solution\.reset\(\); return solution; \}$', fw, 'WitnessLP::findWitness body')
+    E.find1(r'^\{ scale_ = 0\.0; lp_\.resize\(1\); \}$', method('reset', 'void'), 'WitnessLP::reset body')
+    ctor = re.search(r'WitnessLP::WitnessLP\(const size_t s\) : S\(s\), lp_\(s\+2\)\s*\{(.*?)\n    \}', src, re.S)
+    if not ctor:
+        raise E.ExtractError('WitnessLP constructor not found')
+    ct = flat(ctor.group(1))
+    for pat, what in [(r'lp_\.setObjective\(S\+1, true\);', 'objective = maximise delta'),
+                      (r'for \( size_t i = 0; i < S; \+\+i \) lp_\.row\[i\] = 1\.0; lp_\.row\[S\] = 0\.0; lp_\.row\[S \+ 1\] = 0\.0; lp_\.pushRow\(LP::Constraint::Equal, 1\.0\);', 'simplex row'),
+                      (r'lp_\.setUnbounded\(S\);', 'K free'),
+                      (r'lp_\.row\[S\] = -1\.0; lp_\.row\[S \+ 1\] = \+0\.0;', 'K and delta coefficients')]:
+        E.find1(pat, ct, 'WitnessLP constructor: ' + what)
+    # Pruner's use of the object
+    pr = flat(E.strip_comments(E.read('include/AIToolbox/Utils/Prune.hpp')))
+    E.find1(r'lp_\.reset\(\); lp_\.allocate\(size\); for \( auto it = begin; it != bound; \+\+it \) lp_\.addOptimalRow\(std::invoke\(p, \*it\)\);', pr, 'Pruner: LP set-up')
+    E.find1(r'const auto witness = lp_\.findWitness\(std::invoke\(p, \*\(end-1\)\)\);', pr, 'Pruner: witness question')
+    E.find1(r'bound = extractBestAtPoint\(\*witness, bound, bound, end, p\); lp_\.addOptimalRow\(std::invoke\(p, \*\(bound-1\)\)\);', pr, 'Pruner: new optimal row')
+    # LPInterpolation's LP
+    for pat, what in [(r'LP lp\(compatiblePoints\.size\(\) \+ 1\);', 'columns'),
+                      (r'lp\.setObjective\(compatiblePoints\.size\(\), false\);', 'objective = minimise K'),
+                      (r'lp\.setUnbounded\(compatiblePoints\.size\(\)\);', 'K free'),
+                      (r'lp\.row\[compatiblePoints\.size\(\)\] = \+0\.0;', 'K coefficient of the state rows'),
+                      (r'for \(const auto b : compatiblePoints\) lp\.row\[i\+\+\] = ubV\.first\[b\]\[s\];', 'state row coefficients'),
+                      (r'lp\.row\[i\] = -1\.0; lp\.pushRow\(LP::Constraint::Equal, 0\.0\);', 'gain row')]:
+        E.find1(pat, lp, 'LPInterpolation LP: ' + what)
+    # the LP wrapper passes rows through unchanged (a coefficient touched on the way to lp_solve changes every LP of the library)
+    lpw_flat = flat(lpw)
+    E.find1(r'void LP::pushRow\(const Constraint c, const double value\) \{ add_constraint\(pimpl_->lp_\.get\(\), pimpl_->conversionData\(\), '
+            r'toLpSolveConstraint\(c\), static_cast<REAL>\(value\)\); \}', lpw_flat, 'LP::pushRow body')
+    E.find1(r'void LP::popRow\(\) \{ del_constraint\(pimpl_->lp_\.get\(\), get_Nrows\(pimpl_->lp_\.get\(\)\)\); \}', lpw_flat, 'LP::popRow body')
+    E.find1(r'constexpr int toLpSolveConstraint\(LP::Constraint c\) \{ if \(c == LP::Constraint::LessEqual\) return LE; if \(c == LP::Constraint::GreaterEqual\) return GE; return EQ; \}',
+            lpw_flat, 'toLpSolveConstraint')
+    E.find1(r'double \* conversionData\(\) \{ return static_cast<Impl\*>\(this\)->data_\.get\(\); \}', lpw_flat, 'ConversionArray::conversionData (no conversion)')
+    E.find1(r'if \( result == 0 \|\| result == 1 \) solution = Eigen::Map<Vector>\(vp, variables\);', lpw_flat, 'LP::solve accepted result codes')
+    E.find1(r'void LP::resize\(const size_t rows\) \{ resize_lp\(pimpl_->lp_\.get\(\), rows, row\.size\(\)\); \}', lpw_flat, 'LP::resize body')
+
     b = lambda x: 'true' if x else 'false'
     body = f"""/- GENERATED by tools/extract_c12.py from {REL} — do not edit. -/
 namespace AITB.Gen.C12Src
@@ -93,6 +157,8 @@ def sawStrict : Bool := {b(saw_strict)}
 def sawGuard : Bool := {b(saw_guard)}
 /-- src/Utils/LP/LpSolveWrapper.cpp: `LP::getPrecision()` -/
 def lpPrecision : Rat := {lp_prec}
+/-- {REL}: `witnessScale` rescales when `std::abs(std::ilogb(m)) >` this bound (by `std::ldexp(1.0, -e)`) -/
+def witnessExpBound : Nat := {exp_bound}
 
 end AITB.Gen.C12Src
 """
